@@ -195,6 +195,9 @@ def gen_parent(rng, versions, versions2=None, comp=None, comp2=None, step=60):
     ids = list(range(1, n + 1))
     # the oldest commits of some parents are older than the dependency: they have no file that pins anything
     unpinned = rng.randint(1, max(1, n // 3)) if rng.random() < 0.25 and not versions2 else 0
+    # the build tags of some parents keep the dots and dashes of the branch name ("build_7_release_5.2-lts_success"):
+    # major.minor then come from the VERSION file of the tagged commit
+    dotted = unpinned == 0 and rng.random() < 0.15
     for cid in ids:
         earlier = ids[:cid - 1]
         if not earlier:
@@ -226,7 +229,7 @@ def gen_parent(rng, versions, versions2=None, comp=None, comp2=None, step=60):
                 pinned.append(comp2.commits[versions2[pins2[cid]][0]].committed_date)
             ts = max(pinned + [commits[c].committed_date for c in ids[:cid - 1]]) + rng.randint(60, step)
         commits[cid] = mg.Commit("par", cid, [commits[p] for p in ps], msg, ts,
-                                 {"DEPENDS": json.dumps(depends)})
+                                 dict({"DEPENDS": json.dumps(depends)}, **({"VERSION": "5.%d" % (cid % 4)} if dotted else {})))
     # (the trunk of the parent is called master or, in newer repositories, main)
     names = rng.sample(["origin/release/5.4", "origin/release/5.10", "origin/release/5.5",
                         "origin/master" if n % 3 else "origin/main"], rng.randint(1, 3))
@@ -240,8 +243,18 @@ def gen_parent(rng, versions, versions2=None, comp=None, comp2=None, step=60):
     for cid in ids:
         if rng.random() < 0.4:
             bn += 1
-            tags[f"build_{bn}_release_5_{rng.randint(0, 9)}_success"] = cid
-    return mg.Repo("par", commits, heads, tags), pins, pins2
+            if dotted:
+                tags[f"build_{bn}_release_5.{cid % 4}-lts_success"] = cid
+            else:
+                tags[f"build_{bn}_release_5_{rng.randint(0, 9)}_success"] = cid
+    other_tags = {}
+    if rng.random() < 0.2:
+        # tags kept in a namespace of their own (an archive of old build tags, somebody's personal tags): their names
+        # only END like build tags - they mark no builds
+        for k in range(rng.randint(1, 3)):
+            other_tags[rng.choice(["archive/build_%d_release_5_0_success", "old/build_%d_release_5_4_success",
+                                   "user/jo/build_%d_release_5_1_success"]) % (k + 1)] = rng.choice(ids)
+    return mg.Repo("par", commits, heads, tags, other_tags=other_tags), pins, pins2
 
 
 def gen_parent_merge(rng, versions):
@@ -486,7 +499,7 @@ def judge_component(ctx, data, cname, comp, par, versions, pins, case):
         ctx.count("parents_with_two_trunks")
     ptags = {}
     for tname, cid in par.tags.items():
-        m = re.match(r"build_(\d+)_release_(\d+)_(\d+)_success", tname)
+        m = re.match(r"build_(\d+)_release_(\d+)[_.](\d+)(?:-lts)?_success", tname)
         ptags.setdefault(cid, set()).add("%s.%s.%s" % (m.group(2), m.group(3), m.group(1)))
     prb = {br.branch_name: br for br in prg.branches}
     main_head = next(h for b, h in comp.branches.items() if b != "origin/release/10.30")
